@@ -35,6 +35,8 @@ type Machine struct {
 	OnPersist func(slot int, t *Tree, sr *SavedRoot) error
 	// OnReplace is called when a slot's tree is replaced (clone into / reload).
 	OnReplace func(slot int, old, new *Tree)
+	// Custom, when set, sees every op first; it returns handled=true for op kinds it interprets itself.
+	Custom func(op Op) (handled bool, err error)
 	// FullCheckEvery n>0: full comparison of the touched slot every n steps.
 	FullCheckEvery int
 	// CheckReadOnly: a full comparison after every read-only op.
@@ -93,6 +95,12 @@ func (m *Machine) mutated(si int, t *Tree) error {
 // map semantics were broken by that call.
 func (m *Machine) Step(op Op) error {
 	w := m.W
+	if m.Custom != nil {
+		if handled, err := m.Custom(op); handled {
+			m.Ev.Steps++
+			return err
+		}
+	}
 	si, t := m.slot(op.Slot)
 	m.Ev.Steps++
 	poolLen := len(w.Pool)
